@@ -379,7 +379,7 @@ func (ir *ifdReader) ParseDate(t Tag) time.Time {
 			return time.Time{}
 		}
 		// check recieved value
-		if buf[4] == ':' && buf[7] == ':' && buf[10] == ' ' &&
+		if len(buf) >= 19 && buf[4] == ':' && buf[7] == ':' && buf[10] == ' ' &&
 			buf[13] == ':' && buf[16] == ':' {
 			year := parseStrUint(buf[0:4])
 			month := parseStrUint(buf[5:7])
